@@ -42,7 +42,11 @@ Definition has (c : ascii) (ps : list part) : bool := existsb (fun p => Ascii.eq
 (* the format determines the instant: year, (month and day) or day of year, hour, minute, second *)
 Definition determines (ps : list part) : bool :=
   has "Y" ps && has "H" ps && has "M" ps && has "S" ps && ((has "m" ps && has "d" ps) || has "j" ps).
-Definition format_ok (pre : bytes) (ps : list part) : bool := no_pct pre && parts_ok ps && determines ps.
+(* exactly one seconds field: with several, time.Parse keeps the fraction of an EARLIER seconds field when a later one has
+   none, which the parts model (last field wins) does not reproduce -- such formats are left to the oracle *)
+Definition seconds_parts (ps : list part) : nat := List.length (filter (fun p => Ascii.eqb (parse_code (fst p)) "S") ps).
+Definition format_ok (pre : bytes) (ps : list part) : bool :=
+  no_pct pre && parts_ok ps && determines ps && Nat.leb (seconds_parts ps) 1.
 
 (* decimals of the LAST seconds field (a later seconds field overrides an earlier one in time.Parse) *)
 Fixpoint last_frac (ps : list part) (k : nat) : nat :=
